@@ -66,6 +66,9 @@ inductive Act where
   | hop                 -- `co_await pool` (thread_pool::co_awaiter): continue in a pool worker
   | hopCur              -- `co_await thread_pool::current()`: re-enqueue to the pool when running in a worker
   | job                 -- another thread (pool worker / new thread) takes its next job; see `jobs`
+  /-- `future::force_wait()` / `force_sync()` on a pending future that another thread resolves: the thread
+  blocks (`sync_awaiter`, `flag.wait`) and comes back; whoever called it is still the one executing -/
+  | fwait
   | call (d : Nat)      -- `co_await async`: symmetric transfer into the child
   | join (d : Nat)      -- `co_await` the future returned by an earlier `start d` of the same coroutine
   | fin                 -- `co_return`: `final_awaiter`
@@ -242,6 +245,7 @@ def coStep (s : State) (c : Nat) : Act → State
   | Act.hop => coHop s c
   | Act.hopCur => coHopCur s c
   | Act.job => s
+  | Act.fwait => s
   | Act.park => coPark s c
   | Act.parkNext => coParkNext s c
   | Act.pause => coPause s c
